@@ -447,6 +447,7 @@ func genC01(r *Rng, e *Emitter, n int) {
 					if err != nil {
 						return rejected(err, ls0)
 					}
+					g.Reserve(len(cs) + 1 + len(cs)%7) // room for more: a capacity hint changes no coordinate
 					rb := guard(func() string { return "(ok " + sxCoords1(g.Coords()) + ")" })
 					return "(ok (" + sxG1(g.Layout(), g.Stride(), g.FlatCoords(), g.SRID()) + " " + rb + "))"
 				}
@@ -496,6 +497,7 @@ func genC01(r *Rng, e *Emitter, n int) {
 						o.Swap(g)
 						g = o
 					}
+					g.Reserve(g.NumCoords() + 1 + g.NumCoords()%5)
 					kept = g
 					rb := guard(func() string { return "(ok " + sxCoords2(g.Coords()) + ")" })
 					return "(ok (" + sxG2(g.Layout(), g.Stride(), g.FlatCoords(), g.Ends(), g.SRID()) + " " + rb + "))"
@@ -584,6 +586,7 @@ func genC01(r *Rng, e *Emitter, n int) {
 					o.Swap(g)
 					g = o
 				}
+				g.Reserve(g.NumCoords() + 2)
 				rb := guard(func() string { return "(ok " + sxCoords3(g.Coords()) + ")" })
 				return "(ok (" + sxG3(g.Layout(), g.Stride(), g.FlatCoords(), g.Endss(), g.SRID()) + " " + rb + "))"
 			}))
